@@ -209,6 +209,30 @@ def shard(args):
         if st == "bad":
             part.violation(sig + " [equal argument values]", {"kind": "c08", "country": country, "values": vals,
                                                              "via": "generate"}, exp, obs)
+    # placeholder words and number-like spellings as a component value (one component at a time, the
+    # others at exact width): they are characters like any others - never "no value"; and a bank code
+    # in the shape of a BIC of this very country (a pasted BIC is not a bank code plus decoration)
+    words = ["NONE", "None", "NULL", "null", "NAN", "nan", "N/A", "n/a", "TRUE", "FALSE", "INF", "-1", "+1", "1E5",
+             "0X1F", "0", "00", "NIL", "UNDEFINED", "-", "?"]
+    exact = {"bank_code": bfull, "account_code": afull, "branch_code": rfull}
+    word_rows = []
+    for comp_ in ("bank_code", "account_code", "branch_code"):
+        if not gen.width(c, comp_) and comp_ != "branch_code":
+            continue
+        for w_ in words:
+            word_rows.append(dict(exact, **{comp_: w_}))
+    for tail in ("2A", "2AXXX", "M1GLS"):
+        shaped = conforming(c, "bank_code", 4, 0) + country + tail
+        word_rows.append(dict(exact, bank_code=shaped))
+        word_rows.append(dict(exact, bank_code=shaped, branch_code=""))
+        word_rows.append(dict(exact, bank_code=shaped.lower()))
+    for vals in word_rows:
+        part.count((country, "words", tuple(sorted(vals.items()))))
+        for via in ("generate", "components"):
+            st, sig, exp, obs = judge(country, vals, via)
+            if st == "bad":
+                part.violation(sig + " [placeholder word / BIC-shaped value]",
+                               {"kind": "c08", "country": country, "values": vals, "via": via}, exp, obs)
     # remaining component kinds, one at a time, other fields exact width
     good = {"bank_code": mb[2] if bw else "", "account_code": ma[2],
             "branch_code": (mr[2] if rw else "")}
